@@ -1,5 +1,109 @@
-(* placeholder while the model is being aligned with the implementation *)
-From PV Require Import Base.MachineInt Model.C16Meta Model.C16Oracle.
+(* C16 — CKKS evaluator: metadata / error algebra of every operation and of straight-line programs.
+   Only pinned statements, `exact` proofs and Print Assumptions.  Model: Model/C16Meta.v (transcribed code),
+   Model/C16Spec.v (invariant, documented closed-form algebra `spec_step`, admissible calls, known-finding classes).
+   Value tracking (decrypted slots vs. shadow complex evaluation) and the float rounding of encode/decode are
+   checked by the correspondence harness against the envelope of Model/C16Oracle.v; they are not theorems. *)
+From PV Require Import Base.MachineInt Model.C16Meta Model.C16Spec Proofs.C16Proofs.
 Open Scope Z_scope.
-Theorem C16_placeholder : True. Proof. exact I. Qed.
-Print Assumptions C16_placeholder.
+
+(* every Ok result satisfies log_delta + log_budget <= max_k(dst) (and stays in the small range), for every
+   operation but ckks_rescale_into with a destination smaller than the result (class K1) *)
+Theorem C16_meta_never_exceeds :
+  forall (chk : bool) (B : Z) (o : op) (d a b : ct) (m : meta) (sz : Z) (sh : list Z),
+    1 <= B -> wf_op B o -> good B d -> good B a -> good B b ->
+    ~ k1_rescale_into_small_dst B o d a ->
+    meta_step chk B o d a b = Done m sz sh ->
+    good B (Ct m sz).
+Proof. exact meta_never_exceeds. Qed.
+Print Assumptions C16_meta_never_exceeds.
+
+Theorem C16_meta_never_exceeds_refuted :
+  exists (B : Z) (d a : ct) (k : Z) (m : meta) (sz : Z) (sh : list Z),
+    1 <= B /\ wf_op B (ORescaleInto k) /\ good B d /\ good B a /\
+    meta_step true B (ORescaleInto k) d a a = Done m sz sh /\ maxk B (Ct m sz) < eff m.
+Proof. exact rescale_into_exceeds_refuted. Qed.
+Print Assumptions C16_meta_never_exceeds_refuted.
+
+(* under the code's own branch guards no usize subtraction / addition leaves the usize range and no limb index
+   is out of range, in either build profile, for every admissible call outside the panic classes K2, K3, K6 *)
+Theorem C16_no_underflow :
+  forall (chk : bool) (B : Z) (o : op) (d a b : ct),
+    1 <= B -> wf_op B o -> good B d -> good B a -> good B b ->
+    admissible B o d a -> ~ known_panic B o d a b ->
+    meta_step chk B o d a b <> Panic.
+Proof. exact no_panic. Qed.
+Print Assumptions C16_no_underflow.
+
+Theorem C16_no_underflow_refuted_const_add :
+  exists (B : Z) (d : ct) (prec : meta),
+    1 <= B /\ wf_op B (OCstRnxAssign prec false) /\ good B d /\ admissible B (OCstRnxAssign prec false) d d /\
+    meta_step true B (OCstRnxAssign prec false) d d d = Panic /\
+    meta_step false B (OCstRnxAssign prec false) d d d = Panic.
+Proof. exact const_add_panics_refuted. Qed.
+Print Assumptions C16_no_underflow_refuted_const_add.
+
+Theorem C16_no_underflow_refuted_product_noncompact :
+  exists (B : Z) (d a : ct),
+    1 <= B /\ good B d /\ good B a /\ admissible B OSquareInto d a /\
+    meta_step true B OSquareInto d a a = Panic /\ meta_step false B OSquareInto d a a = Panic.
+Proof. exact product_noncompact_panics_refuted. Qed.
+Print Assumptions C16_no_underflow_refuted_product_noncompact.
+
+Theorem C16_no_underflow_refuted_product_base2k :
+  exists (B : Z) (d a : ct) (p : ptz),
+    1 <= B /\ wf_op B (OMulPtZnxInto p) /\ good B d /\ good B a /\ compact_ct B a /\
+    meta_step true B (OMulPtZnxInto p) d a a = Panic.
+Proof. exact product_base2k_panics_refuted. Qed.
+Print Assumptions C16_no_underflow_refuted_product_base2k.
+
+Theorem C16_no_underflow_refuted_huge_scalar :
+  exists (B : Z) (d a : ct) (bits : Z) (m : meta) (sz : Z) (sh : list Z),
+    1 <= B /\ good B d /\ good B a /\ 0 <= bits < two64 /\
+    meta_step true B (ODivPow2Into bits) d a a = Panic /\
+    meta_step false B (ODivPow2Into bits) d a a = Done m sz sh /\ ld m < ld (cm a).
+Proof. exact huge_scalar_refuted. Qed.
+Print Assumptions C16_no_underflow_refuted_huge_scalar.
+
+(* totality: the call returns Err(kind) exactly when the closed-form algebra `spec_step` says so, Ok with exactly
+   the documented metadata and limb count otherwise, and never a third outcome *)
+Theorem C16_error_iff :
+  forall (chk : bool) (B : Z) (o : op) (d a b : ct),
+    1 <= B -> wf_op B o -> good B d -> good B a -> good B b ->
+    admissible B o d a -> ~ known_panic B o d a b ->
+    outcome_matches (meta_step chk B o d a b) (spec_step B o d a b).
+Proof. exact error_iff. Qed.
+Print Assumptions C16_error_iff.
+
+(* the invariant holds after any straight-line program whose calls all succeed (as with `?` propagation) *)
+Theorem C16_program_meta :
+  forall (chk : bool) (B : Z) (p : list step) (rs : regs),
+    1 <= B -> Forall (good B) rs -> clean_run chk B rs p ->
+    Forall (good B) (snd (exec_prog chk B rs p)).
+Proof. exact program_meta. Qed.
+Print Assumptions C16_program_meta.
+
+(* ... but not after a program that goes on after a failed call (class K4) *)
+Theorem C16_program_meta_refuted :
+  exists (B : Z) (rs : regs) (p : list step),
+    1 <= B /\ Forall (good B) rs /\ Forall (fun s => wf_op B (sop s)) p /\
+    (exists e m m' sz sh, fst (exec_prog true B rs p) = [Fail e m; Done m' sz sh]) /\
+    ~ Forall (inv B) (snd (exec_prog true B rs p)).
+Proof. exact program_meta_refuted. Qed.
+Print Assumptions C16_program_meta_refuted.
+
+(* the hypotheses are satisfiable *)
+Example C16_example_step :
+  let B := 19 in let d := Ct (Meta 0 0) 6 in let a := c8 30 122 in
+  1 <= B /\ wf_op B ONegInto /\ good B d /\ good B a /\ admissible B ONegInto d a /\ ~ known_panic B ONegInto d a a /\
+  ~ k1_rescale_into_small_dst B ONegInto d a /\
+  meta_step true B ONegInto d a a = Done (Meta 30 84) 6 [38].
+Proof. exact example_step. Qed.
+
+Example C16_example_program :
+  let B := 19 in
+  let rs := [Ct (Meta 0 0) 8; Ct (Meta 0 0) 8; Ct (Meta 0 0) 7] in
+  let p := [Step (OEncrypt (Meta 30 10) 152) 0 0 0; Step OSquareInto 1 0 0; Step OCompact 1 1 1;
+            Step (ORescaleInto 10) 2 1 1; Step OLinAssign 2 1 1] in
+  1 <= B /\ Forall (good B) rs /\ clean_run true B rs p /\
+  snd (exec_prog true B rs p) = [c8 30 122; Ct (Meta 30 92) 7; Ct (Meta 30 82) 7].
+Proof. exact example_program. Qed.
